@@ -252,6 +252,7 @@ def make_numpy():
             return tuple(out)
         return T.unique(x, *a, **k)
     m.unique = np_unique
+    m.bincount = T.bincount
     _nd = lambda x: x if isinstance(x, Arr) else NDArray(_obj(x))
     m.sum = lambda x, axis=None, **k: _nd(x).sum(axis=axis)
     m.cumsum = lambda x, axis=None, dtype=None: _nd(x).cumsum(axis=axis)
@@ -459,6 +460,9 @@ def make_torch():
     m.arange = T.arange
     m.where = T.where
     m.gather = T.gather
+    m.index_select = lambda x, dim, index: x.index_select(dim, index)
+    m.masked_select = lambda x, mask: x.masked_select(mask)
+    m.meshgrid = T.meshgrid
     m.abs = lambda x: abs(x)
     m.sub = lambda a, b: a - b
     m.add = lambda a, b: a + b
